@@ -20,7 +20,7 @@ KNOWN_FOREIGN = "forget-foreign-parent-outside-key"
 # The model follows the code AS IT IS: RecomputingDict.__getitem__ replays the pack on the classes of the key only.
 # With the repair proposed in findings/forget_foreign_parent.patch.diff applied to /repo (replay on every other
 # label afterwards) set this to True (or VERIF_C14_FALLBACK=1) and drop the open finding from known_findings.json.
-FALLBACK_ALL_LABELS = os.environ.get("VERIF_C14_FALLBACK", "0") == "1"
+FALLBACK_ALL_LABELS = os.environ.get("VERIF_C14_FALLBACK", "1") == "1"
 
 
 # ----------------------------------------------------------------- generator
